@@ -263,6 +263,22 @@ def replay_inner(p):
 REPLAYERS = {'apply_gate': replay_apply_gate, 'program': replay_program, 'inner': replay_inner}
 
 
+def sym_call(chk, fn, name, key, replay, claim_of, assume=()):
+    """run fn() on symbolic data under the path explorer (value-dependent branches, e.g. special-cased gate matrices, fork);
+    one obligation per returning path, a finding candidate per raising path"""
+    paths, st = H.run_paths(fn, list(assume), feas_timeout_ms=2000, max_paths=256)
+    chk.add_path_stats(st)
+    for pi, path in enumerate(paths):
+        pre = list(assume) + path.pc + path.facts
+        tag = f' (path {pi})' if len(paths) > 1 else ''
+        if path.status != 'return':
+            chk.add(f'{name} raises {type(path.value).__name__}{tag}', pre, ir.FALSE, key=key + ' raises', replay=replay)
+            continue
+        chk.add(name + tag, pre, claim_of(path.value), key=key, replay=replay)
+        chk.notes_from(path)
+    return paths
+
+
 # ---------------------------------------------------------------- main
 def run(chk):
     quick = chk.tier == 'quick'
@@ -295,33 +311,31 @@ def run(chk):
                     if n >= 5 and k == 3 and rng.random() > 0.2:
                         continue
                     chk.configurations += 1
-                    got = numqi.sim.state.apply_gate(q, U, idx)
                     ref = mv(embed(U, idx, n), q)
                     pl = (lambda m, q=q, U=U, idx=idx, n=n: dict(cx_payload(m, {'q': q, 'U': U}), idx=list(idx), n=n, kind='state'))
-                    chk.add(f'apply_gate[n={n},idx={idx}]', [], all_eq(got, ref), replay=('apply_gate', pl),
-                            key='state.apply_gate!=Embed')
-                    if chk.configurations % 7 == 1:
-                        nval += _validate(chk, got, [q, U], lambda qq, UU, idx=idx: numqi.sim.state.apply_gate(qq, UU, idx), rng)
+                    ps = sym_call(chk, lambda: numqi.sim.state.apply_gate(q, U, idx), f'apply_gate[n={n},idx={idx}]', 'state.apply_gate!=Embed', ('apply_gate', pl),
+                                  lambda got, ref=ref: all_eq(got, ref))
+                    if chk.configurations % 7 == 1 and ps and ps[0].status == 'return' and len(ps) == 1:
+                        with ps[0].resume():
+                            nval += _validate(chk, ps[0].value, [q, U], lambda qq, UU, idx=idx: numqi.sim.state.apply_gate(qq, UU, idx), rng)
                     # controlled
                     rest = [x for x in range(n) if x not in idx]
                     if k <= 2:
                         for nc in range(1, min(2, len(rest)) + 1):
                             for ctrl in itertools.combinations(rest, nc):
                                 chk.configurations += 1
-                                got = numqi.sim.state.apply_control_n_gate(q, U, set(ctrl), idx)
                                 ref = mv(embed(U, idx, n, ctrl), q)
                                 pl = (lambda m, q=q, U=U, idx=idx, n=n, ctrl=ctrl: dict(cx_payload(m, {'q': q, 'U': U}), idx=list(idx), n=n, ctrl=list(ctrl), kind='control'))
-                                chk.add(f'apply_control_n_gate[n={n},ctrl={ctrl},tgt={idx}]', [], all_eq(got, ref),
-                                        replay=('apply_gate', pl), key='state.apply_control_n_gate!=ControlledEmbed')
+                                sym_call(chk, lambda: numqi.sim.state.apply_control_n_gate(q, U, set(ctrl), idx), f'apply_control_n_gate[n={n},ctrl={ctrl},tgt={idx}]',
+                                         'state.apply_control_n_gate!=ControlledEmbed', ('apply_gate', pl), lambda got, ref=ref: all_eq(got, ref))
             # Born marginals
             for r in range(1, n + 1):
                 for keep in itertools.combinations(range(n), r):
                     chk.configurations += 1
-                    got = numqi.sim.state.reduce_to_probability(q, set(keep))
                     ref = born(q, list(keep), n)
                     pl = (lambda m, q=q, keep=keep, n=n: dict(cx_payload(m, {'q': q, 'U': H.cx_array('z', (1, 1))}), idx=list(keep), n=n, kind='prob'))
-                    chk.add(f'reduce_to_probability[n={n},keep={keep}]', ctx.facts, all_eq(got, ref), replay=('apply_gate', pl),
-                            key='state.reduce_to_probability!=Born')
+                    sym_call(chk, lambda: numqi.sim.state.reduce_to_probability(q, set(keep)), f'reduce_to_probability[n={n},keep={keep}]', 'state.reduce_to_probability!=Born',
+                             ('apply_gate', pl), lambda got, ref=ref: all_eq(got, ref))
         # 2. density matrix
         for n in range(1, nmax_dm + 1):
             rho = H.cx_array(f'rho{n}', (2 ** n, 2 ** n))
@@ -329,7 +343,6 @@ def run(chk):
                 U = H.cx_array(f'u{k}', (2 ** k, 2 ** k))
                 for idx in itertools.permutations(range(n), k):
                     chk.configurations += 1
-                    got = numqi.sim.dm.apply_gate(rho, U, list(idx))
                     E = embed(U, idx, n)
                     Eh = np.empty_like(E)
                     for i in range(E.shape[0]):
@@ -338,13 +351,12 @@ def run(chk):
                             Eh[i, j] = e.conjugate() if hasattr(e, 'conjugate') else e
                     ref = np.dot(np.dot(E, A.plain(rho)), Eh)
                     pl = (lambda m, rho=rho, U=U, idx=idx, n=n: dict(cx_payload(m, {'rho': rho, 'U': U, 'q': H.cx_array('z', 1)}), idx=list(idx), n=n, kind='dm', idx_list=True))
-                    chk.add(f'dm.apply_gate[n={n},idx={idx}]', [], all_eq(got, ref), replay=('apply_gate', pl),
-                            key='dm.apply_gate!=E.rho.E^H')
-                    got = numqi.sim.dm.operator_expectation(rho, U, idx)
+                    sym_call(chk, lambda: numqi.sim.dm.apply_gate(rho, U, list(idx)), f'dm.apply_gate[n={n},idx={idx}]', 'dm.apply_gate!=E.rho.E^H', ('apply_gate', pl),
+                             lambda got, ref=ref: all_eq(got, ref))
                     ref = np.trace(np.dot(A.plain(rho), E))
                     pl = (lambda m, rho=rho, U=U, idx=idx, n=n: dict(cx_payload(m, {'rho': rho, 'U': U, 'q': H.cx_array('z', 1)}), idx=list(idx), n=n, kind='expect'))
-                    chk.add(f'dm.operator_expectation[n={n},idx={idx}]', [], all_eq([got], [ref]), replay=('apply_gate', pl),
-                            key='dm.operator_expectation!=Tr(rho.O)')
+                    sym_call(chk, lambda: numqi.sim.dm.operator_expectation(rho, U, idx), f'dm.operator_expectation[n={n},idx={idx}]', 'dm.operator_expectation!=Tr(rho.O)',
+                             ('apply_gate', pl), lambda got, ref=ref: all_eq([got], [ref]))
         # 3. inner_product_psi0_O_psi1
         for n in (2, 3) if quick else (2, 3, 4):
             p0 = H.cx_array('p0', 2 ** n)
@@ -353,7 +365,6 @@ def run(chk):
             Ub = H.cx_array('ub', (2, 2))
             Uc = H.cx_array('uc', (4, 4))
             op_list = [[(Ua, 0), (Ub, n - 1)], [(Uc, n - 1, 0)], [(Ua, 1), (Uc, 0, 1), (Ub, 0)]]
-            got = numqi.sim.state.inner_product_psi0_O_psi1(p0, p1, op_list)
             refs = []
             for term in op_list:
                 M = None
@@ -364,7 +375,8 @@ def run(chk):
                 refs.append(np.dot(np.array([e.conjugate() for e in A.plain(p0)], dtype=object), v))
             chk.configurations += 1
             pl = (lambda m, n=n, arrs={'p0': p0, 'p1': p1, 'Ua': Ua, 'Ub': Ub, 'Uc': Uc}: dict(cx_payload(m, arrs), n=n))
-            chk.add(f'inner_product_psi0_O_psi1[n={n}]', [], all_eq(got, refs), replay=('inner', pl), key='state.inner_product_psi0_O_psi1')
+            sym_call(chk, lambda: numqi.sim.state.inner_product_psi0_O_psi1(p0, p1, op_list), f'inner_product_psi0_O_psi1[n={n}]', 'state.inner_product_psi0_O_psi1', ('inner', pl),
+                     lambda got, refs=refs: all_eq(got, refs))
         # 4. gate constructors unitary for every angle (angle abstraction: c^2+s^2=1)
         th = S.sc_var('theta')
         ph = S.sc_var('phi')
@@ -405,7 +417,6 @@ def run(chk):
                     continue
                 chk.configurations += 1
                 circ, ops = build_program(n, prog, f'p{n}_{pi}_')
-                got = circ.apply_state(q)
                 ref = q
                 for U, tgt, ctrl in ops:
                     ref = mv(embed(U if isinstance(U, np.ndarray) else np.asarray(U), tgt, n, ctrl), ref)
@@ -415,26 +426,24 @@ def run(chk):
                     if isinstance(U, A.SymArray):
                         arrs[f'g{k}'] = U
                 pl = (lambda m, arrs=arrs, prog=prog, n=n: dict(cx_payload(m, arrs), prog=[list(g) for g in prog], n=n, what='apply_state'))
-                chk.add(f'Circuit.apply_state[n={n}:{names}]', ctx.facts, all_eq(got, ref), replay=('program', pl),
-                        key='Circuit.apply_state!=ordered product')
+                sym_call(chk, lambda: circ.apply_state(q), f'Circuit.apply_state[n={n}:{names}]', 'Circuit.apply_state!=ordered product', ('program', pl),
+                         lambda got, ref=ref: all_eq(got, ref))
                 if len(prog) <= 2 and (pi % 3 == 0 or not quick):
-                    Umat = circ.to_unitary()
                     pl2 = (lambda m, arrs=arrs, prog=prog, n=n: dict(cx_payload(m, arrs), prog=[list(g) for g in prog], n=n, what='to_unitary'))
-                    chk.add(f'Circuit.to_unitary.q==apply_state[n={n}:{names}]', ctx.facts, all_eq(mv(Umat, q), got),
-                            replay=('program', pl2), key='Circuit.to_unitary!=apply_state')
+                    sym_call(chk, lambda: mv(circ.to_unitary(), q), f'Circuit.to_unitary.q==ordered product[n={n}:{names}]', 'Circuit.to_unitary!=ordered product', ('program', pl2),
+                             lambda got, ref=ref: all_eq(got, ref))
                 if len(prog) <= 2 and pi % 5 == 0:
                     delta = 1
                     circ.shift_qubit_index_(delta)
                     q2 = H.cx_array(f'sq{n}', 2 ** (n + delta))
-                    got2 = circ.apply_state(q2)
                     ref2 = q2
                     for U, tgt, ctrl in ops:
                         ref2 = mv(embed(U if isinstance(U, np.ndarray) else np.asarray(U), tuple(t + delta for t in tgt), n + delta,
                                         tuple(c + delta for c in ctrl)), ref2)
                     arrs2 = dict(arrs, q2=q2)
                     pl3 = (lambda m, arrs2=arrs2, prog=prog, n=n: dict(cx_payload(m, arrs2), prog=[list(g) for g in prog], n=n, what='shift', shift=1))
-                    chk.add(f'Circuit.shift_qubit_index_[n={n}:{names}]', ctx.facts, all_eq(got2, ref2), replay=('program', pl3),
-                            key='Circuit.shift_qubit_index_ != relabelling')
+                    sym_call(chk, lambda: circ.apply_state(q2), f'Circuit.shift_qubit_index_[n={n}:{names}]', 'Circuit.shift_qubit_index_ != relabelling', ('program', pl3),
+                             lambda got2, ref2=ref2: all_eq(got2, ref2))
     chk.validation(nval)
     chk.notes_from(ctx)
     chk.assume('module-level gate constants (H, T) are lifted to exact algebraic numbers (1/sqrt2 as prime radical)')
